@@ -452,7 +452,7 @@ class BasicVisitor(NodeVisitor):
         return visited_children
 
     def visit_multi_line_element(self, _, visited_children):
-        _, line, _ = visited_children
+        _, _, line, _ = visited_children
         return line
 
     def visit_lhs(self, _, visited_children):
